@@ -968,8 +968,7 @@ Record Inv (s : state) : Prop := {
   I_brc : forall b, count N.eqb b (brc s) = count N.eqb b (blockers_of (rb s));
   I_lims : forall k b, count pair_eqb (k, b) (lims s)
                        = if memN b (brc s) && N.eqb k (bkey E b) then 1 else 0;
-  I_rbkey : forall c b k, count trip_eqb (c, (b, k)) (rb s) <> 0 -> k = bkey E b;
-  I_vf : forall p, count N.eqb p (slots s) <> 0 -> memN p (vf s) = false }.
+  I_rbkey : forall c b k, count trip_eqb (c, (b, k)) (rb s) <> 0 -> k = bkey E b }.
 
 Lemma Inv_init : Inv init.
 Proof. constructor; cbn; intros; try reflexivity; try lia; try congruence. Qed.
@@ -1001,14 +1000,13 @@ Qed.
 
 Lemma Inv_obs s1 s2 : obs_eq s1 s2 -> Inv s1 -> Inv s2.
 Proof.
-  intros [Hsl Hli Hpc Hrb Hbr Hvf Hfr] [J1 J2 J3 J4 J5 J6]. constructor; intros.
+  intros [Hsl Hli Hpc Hrb Hbr Hvf Hfr] [J1 J2 J3 J4 J5]. constructor; intros.
   - rewrite <- Hsl. apply J1.
   - rewrite <- Hsl in *. apply J2; assumption.
   - rewrite <- Hbr. unfold blockers_of.
     rewrite <- (same_count_map trip_eqb trip_reflects (fun e => fst (snd e)) _ _ Hrb). apply J3.
   - rewrite <- Hli. rewrite J4. rewrite (memN_obs (brc s1) (brc s2) b Hbr). reflexivity.
   - rewrite <- Hrb in *. eapply J5; eauto.
-  - rewrite <- Hvf. apply J6. rewrite Hsl. assumption.
 Qed.
 
 (* undoing the plan entries a call appended *)
@@ -1046,7 +1044,7 @@ Proof.
   apply andb_true_iff in H. destruct H as [H Hvf].
   apply andb_true_iff in H. destruct H as [Hb Hsl].
   apply negb_true_iff in Hsl. apply negb_true_iff in Hb. unfold bound in Hb.
-  destruct (lookup p (pc s)) eqn:Hlk; [discriminate|].
+  destruct (lookup (peq E p) (pc s)) eqn:Hlk; [discriminate|].
   set (l := map IB (check_limiters E p s) ++ map IP (slot_conflicts E p s)).
   destruct (negb (is_nil l) && negb f) eqn:Hcase.
   - (* refused *)
@@ -1068,7 +1066,7 @@ Proof.
         -- apply N.eqb_eq in Hpp. subst p0. rewrite (count_notmem _ _ Hsl). reflexivity.
         -- lia.
       * rewrite !lookup_filter_ne.
-        destruct (N.eqb p0 p) eqn:Hpp; [apply N.eqb_eq in Hpp; subst; auto | reflexivity].
+        destruct (N.eqb p0 (peq E p)) eqn:Hpp; [apply N.eqb_eq in Hpp; subst; auto | reflexivity].
 Qed.
 
 (* ---- helper facts about appended elements *)
@@ -1179,7 +1177,7 @@ Proof.
     assert (Hfree : forall q, count N.eqb q (slots s) <> 0 -> same_slot E p q = false).
     { intros q Hq. apply (count_In N.eqb N_reflects) in Hq.
       eapply filter_nil_false; [exact Hnil | exact Hq]. }
-    destruct HI as [J1 J2 J3 J4 J5 J6]. constructor; cbn; intros.
+    destruct HI as [J1 J2 J3 J4 J5]. constructor; cbn; intros.
     + rewrite (count_app N.eqb). cbn. destruct (N.eqb p0 p) eqn:Hpp.
       * apply N.eqb_eq in Hpp. subst p0. rewrite (count_notmem _ _ Hsl). lia.
       * specialize (J1 p0). lia.
@@ -1192,19 +1190,16 @@ Proof.
     + apply J3.
     + apply J4.
     + eapply J5; eauto.
-    + rewrite (count_app N.eqb) in H. cbn in H. destruct (N.eqb p0 p) eqn:Hpp.
-      * apply N.eqb_eq in Hpp. subst p0. exact Hvf.
-      * apply J6. lia.
 Qed.
 
 Lemma inv_hardref s r : Inv s -> Inv (call_s E (AHardref r) s).
-Proof. intros [J1 J2 J3 J4 J5 J6]. constructor; cbn; auto. Qed.
+Proof. intros [J1 J2 J3 J4 J5]. constructor; cbn; auto. Qed.
 Lemma inv_backref s c p : Inv s -> Inv (call_s E (ABackref c p) s).
-Proof. intros [J1 J2 J3 J4 J5 J6]. constructor; cbn; auto. Qed.
+Proof. intros [J1 J2 J3 J4 J5]. constructor; cbn; auto. Qed.
 
 Lemma inv_block s c b k : Inv s -> N.eqb k (bkey E b) = true -> Inv (call_s E (ABlock c b k) s).
 Proof.
-  intros [J1 J2 J3 J4 J5 J6] Hk. apply N.eqb_eq in Hk.
+  intros [J1 J2 J3 J4 J5] Hk. apply N.eqb_eq in Hk.
   unfold call_s. cbn [call]. unfold incref_apply, bind, plan_append, modify, gets. cbn.
   destruct (memN b (brc s)) eqn:Hin; cbn.
   - constructor; cbn; intros; auto.
@@ -1301,7 +1296,7 @@ Lemma inv_decref_fields s s' c b k : Inv E s -> count trip_eqb (c, (b, k)) (rb s
              else filter (fun kb => negb (pair_eqb (k, b) kb)) (lims s)) ->
   Inv E s'.
 Proof.
-  intros HI Hin Hsl Hvf Hrb Hbrc Hli. pose proof HI as [J1 J2 J3 J4 J5 J6].
+  intros HI Hin Hsl Hvf Hrb Hbrc Hli. pose proof HI as [J1 J2 J3 J4 J5].
   assert (Hk : k = bkey E b) by (eapply J5; eauto).
   constructor; intros.
   - rewrite Hsl. apply J1.
@@ -1328,7 +1323,6 @@ Proof.
   - rewrite Hrb, (count_remove1 trip_eqb trip_reflects) in H.
     eapply J5. destruct (trip_eqb (c, (b, k)) (c0, (b0, k0))); [|exact H].
     intros H0. rewrite H0 in H. cbn in H. contradiction.
-  - rewrite Hvf. apply J6. rewrite <- Hsl. assumption.
 Qed.
 
 (* reverting the decref restores the observables *)
@@ -1339,7 +1333,7 @@ Lemma decref_revert_ok s s' c b k : Inv E s -> count trip_eqb (c, (b, k)) (rb s)
              else filter (fun kb => negb (pair_eqb (k, b) kb)) (lims s)) ->
   exists s'', decref_revert E c b k s' = (s'', Ok tt) /\ obs_eq s'' s.
 Proof.
-  intros HI Hin Hsl Hpc Hvf Hfr Hrb Hbrc Hli. pose proof HI as [J1 J2 J3 J4 J5 J6].
+  intros HI Hin Hsl Hpc Hvf Hfr Hrb Hbrc Hli. pose proof HI as [J1 J2 J3 J4 J5].
   assert (Hk : k = bkey E b) by (eapply J5; eauto).
   assert (Hb : memN b (brc s) = true).
   { rewrite memN_count, J3. pose proof (count_blockers_of _ _ Hin) as H. cbn in H.
@@ -1444,40 +1438,49 @@ Lemma bind_ok {A B} (m : M A) (f : A -> M B) s s' a : m s = (s', Ok a) -> bind m
 Proof. intros H. unfold bind. rewrite H. reflexivity. Qed.
 
 (* ---- remove_op *)
+Lemma wf_remove_facts s c p : Inv E s -> wf_api_b E s (ARemove c p) = true ->
+  memN p (slots s) = true /\ lookup (peq E p) (pc s) = Some c /\ memN (peq E p) (vf s) = false /\
+  count N.eqb p (slots s) = 1.
+Proof.
+  intros HI H. cbn [wf_api_b] in H. apply andb_true_iff in H. destruct H as [H Hvf].
+  apply andb_true_iff in H. destruct H as [Hsl Hpc]. apply negb_true_iff in Hvf.
+  unfold opt_eqb in Hpc. destruct (lookup (peq E p) (pc s)) as [c0|] eqn:Hlk; [|discriminate].
+  apply N.eqb_eq in Hpc. subst c0. repeat split; auto.
+  pose proof (I_nodup E s HI p). pose proof (count_mem _ _ Hsl). lia.
+Qed.
+
+Definition remove_result (s : state) (c p : N) (sb : state) : state :=
+  set_vf (vf s ++ [peq E p]) (set_plan (plan sb ++ [ORemove c p])
+    (set_pc (filter (fun qc : N * N => negb (N.eqb (fst qc) (peq E p))) (pc s))
+       (set_slots (filter (fun x => negb (N.eqb x p)) (slots s)) sb))).
+
 Lemma undo_remove s c p : Inv E s -> wf_api_b E s (ARemove c p) = true -> Undoable E s (ARemove c p).
 Proof.
-  intros HI H. cbn [wf_api_b] in H. apply andb_true_iff in H. destruct H as [Hsl Hpc].
-  unfold opt_eqb in Hpc. destruct (lookup p (pc s)) as [c0|] eqn:Hlk; [|discriminate].
-  apply N.eqb_eq in Hpc. subst c0.
-  assert (Hc1 : count N.eqb p (slots s) = 1).
-  { pose proof (I_nodup E s HI p). pose proof (count_mem _ _ Hsl). lia. }
-  assert (Hvf : memN p (vf s) = false) by (apply (I_vf E s HI); rewrite Hc1; lia).
+  intros HI H. destruct (wf_remove_facts s c p HI H) as (Hsl & Hlk & Hvf & Hc1).
   set (v := filter (fun x => negb (N.eqb x p)) (slots s)).
   assert (Hl : forall e, count pair_eqb e (rb_of c s) <= count trip_eqb (c, e) (rb s))
     by (intros e; rewrite count_rb_of; lia).
   destruct (decref_all_ok c (rb_of c s) s HI Hl) as (sb & Hall & HIb & Hplb & Hslb & Hpcb & Hvfb & Hfrb & Hundo).
-  set (X0 := set_vf (vf s ++ [p])
-               (set_plan (plan sb ++ [ORemove c p])
-                  (set_pc (filter (fun qc : N * N => negb (N.eqb (fst qc) p)) (pc s)) (set_slots v sb)))).
-  assert (Hr : exists T1, (fill_slotting E p true;;; pc_set p c;;; vf_remove p) X0 = (T1, Ok tt) /\
+  set (X0 := remove_result s c p sb).
+  assert (Hr : exists T1, (fill_slotting E p true;;; pc_set (peq E p) c;;; vf_remove (peq E p)) X0 = (T1, Ok tt) /\
                obs_eq T1 sb).
   { eexists. split.
     - unfold bind, fill_slotting. cbn. rewrite orb_true_r. cbn. unfold vf_remove. cbn.
       rewrite memN_refl_app. reflexivity.
     - constructor; cbn; intros; try reflexivity.
-      + rewrite (count_app N.eqb). unfold v. rewrite (count_filter N.eqb N_reflects), Hslb. cbn.
+      + rewrite (count_app N.eqb). rewrite (count_filter N.eqb N_reflects), Hslb. cbn.
         destruct (N.eqb p0 p) eqn:Hpp; cbn; [apply N.eqb_eq in Hpp; subst; lia | lia].
-      + rewrite Hpcb. destruct (N.eqb p0 p) eqn:Hpp; cbn.
+      + rewrite Hpcb. destruct (N.eqb p0 (peq E p)) eqn:Hpp; cbn.
         * apply N.eqb_eq in Hpp. subst. symmetry. exact Hlk.
         * rewrite !lookup_filter_ne, Hpp. reflexivity.
-      + rewrite memN_filter_ne, memN_app, Hvfb. destruct (N.eqb p0 p) eqn:Hpp; cbn.
+      + rewrite memN_filter_ne, memN_app, Hvfb. destruct (N.eqb p0 (peq E p)) eqn:Hpp; cbn.
         * apply N.eqb_eq in Hpp. subst. rewrite andb_false_r. symmetry. exact Hvf.
         * rewrite orb_false_r, andb_true_r. reflexivity. }
   destruct Hr as (T1 & Hr & HoT).
   destruct (Hundo T1 HoT) as (t' & Hu & Ho).
   exists X0, None, (dops c (rb_of c s) ++ [ORemove c p]). split; [|split].
   - cbn [call]. unfold remove_apply, bind, remove_slotting. rewrite Hsl.
-    unfold remove_pkg_blockers. rewrite rb_of_set_slots, decref_all_slots, Hall. cbn [fst snd]. fold v.
+    unfold remove_pkg_blockers. rewrite rb_of_set_slots, decref_all_slots, Hall. cbn [fst snd].
     unfold pc_del. cbn [pc set_slots]. rewrite Hpcb, Hlk. cbn.
     rewrite Hvfb, Hvf. cbn. reflexivity.
   - cbn. rewrite Hplb, <- app_assoc. reflexivity.
@@ -1488,23 +1491,16 @@ Proof.
     + exact Ho.
 Qed.
 
-Lemma call_remove_state s c p : Inv E s -> wf_api_b E s (ARemove c p) = true ->
-  exists sb, Inv E sb /\ slots sb = slots s /\ vf sb = vf s /\
-    call_s E (ARemove c p) s
-    = set_vf (vf s ++ [p]) (set_plan (plan sb ++ [ORemove c p])
-        (set_pc (filter (fun qc : N * N => negb (N.eqb (fst qc) p)) (pc s))
-           (set_slots (filter (fun x => negb (N.eqb x p)) (slots s)) sb))).
+Lemma call_remove_state2 s c p : Inv E s -> wf_api_b E s (ARemove c p) = true ->
+  exists sb, decref_all c (rb_of c s) s = (sb, Ok tt) /\ Inv E sb /\
+    plan sb = plan s ++ dops c (rb_of c s) /\ slots sb = slots s /\ pc sb = pc s /\ vf sb = vf s /\ fr sb = fr s /\
+    call_s E (ARemove c p) s = remove_result s c p sb.
 Proof.
-  intros HI H. cbn [wf_api_b] in H. apply andb_true_iff in H. destruct H as [Hsl Hpc].
-  unfold opt_eqb in Hpc. destruct (lookup p (pc s)) as [c0|] eqn:Hlk; [|discriminate].
-  apply N.eqb_eq in Hpc. subst c0.
-  assert (Hc1 : count N.eqb p (slots s) = 1).
-  { pose proof (I_nodup E s HI p). pose proof (count_mem _ _ Hsl). lia. }
-  assert (Hvf : memN p (vf s) = false) by (apply (I_vf E s HI); rewrite Hc1; lia).
+  intros HI H. destruct (wf_remove_facts s c p HI H) as (Hsl & Hlk & Hvf & Hc1).
   assert (Hl : forall e, count pair_eqb e (rb_of c s) <= count trip_eqb (c, e) (rb s))
     by (intros e; rewrite count_rb_of; lia).
   destruct (decref_all_ok c (rb_of c s) s HI Hl) as (sb & Hall & HIb & Hplb & Hslb & Hpcb & Hvfb & Hfrb & Hundo).
-  exists sb. split; [exact HIb|]. split; [exact Hslb|]. split; [exact Hvfb|].
+  exists sb. repeat (split; [assumption|]).
   unfold call_s. cbn [call]. unfold remove_apply, bind, remove_slotting. rewrite Hsl.
   unfold remove_pkg_blockers. rewrite rb_of_set_slots, decref_all_slots, Hall. cbn [fst snd].
   unfold pc_del. cbn [pc set_slots]. rewrite Hpcb, Hlk. cbn.
@@ -1513,15 +1509,13 @@ Qed.
 
 Lemma inv_remove s c p : Inv E s -> wf_api_b E s (ARemove c p) = true -> Inv E (call_s E (ARemove c p) s).
 Proof.
-  intros HI H. destruct (call_remove_state s c p HI H) as (sb & HIb & Hslb & Hvfb & ->).
-  destruct HIb as [J1 J2 J3 J4 J5 J6]. rewrite Hslb in *. rewrite Hvfb in *.
-  constructor; cbn; intros; auto.
+  intros HI H. destruct (call_remove_state2 s c p HI H) as (sb & _ & HIb & _ & Hslb & _ & _ & _ & ->).
+  destruct HIb as [J1 J2 J3 J4 J5]. rewrite Hslb in *.
+  unfold remove_result. constructor; cbn; intros; auto.
   - rewrite (count_filter N.eqb N_reflects). specialize (J1 p0). destruct (negb (N.eqb p0 p)); lia.
   - rewrite !(count_filter N.eqb N_reflects) in *.
     destruct (negb (N.eqb p0 p)), (negb (N.eqb q p)); try contradiction. apply J2; assumption.
   - eapply J5; eauto.
-  - rewrite (count_filter N.eqb N_reflects) in *. rewrite memN_app.
-    destruct (N.eqb p0 p) eqn:Hpp; cbn in *; [contradiction|]. rewrite orb_false_r. apply J6. assumption.
 Qed.
 
 (* ---- a bare decref *)
@@ -1600,10 +1594,10 @@ Record ReplaceFacts (s : state) (c p : N) (old oc : N) (sb : state) : Prop := {
   rf_old_in : count N.eqb old (slots s) = 1;
   rf_same : same_slot E p old = true;
   rf_p_out : count N.eqb p (slots s) = 0;
-  rf_p_unbound : lookup p (pc s) = None;
-  rf_p_vf : memN p (vf s) = false;
-  rf_old_vf : memN old (vf s) = false;
-  rf_oc : lookup old (pc s) = Some oc;
+  rf_p_unbound : N.eqb (peq E p) (peq E old) = false -> lookup (peq E p) (pc s) = None;
+  rf_p_vf : memN (peq E p) (vf s) = false;
+  rf_old_vf : memN (peq E old) (vf s) = false;
+  rf_oc : lookup (peq E old) (pc s) = Some oc;
   rf_ne : N.eqb p old = false;
   rf_inv : Inv E sb;
   rf_plan : plan sb = plan s ++ dops oc (rb_of oc s);
@@ -1621,12 +1615,12 @@ Proof.
   intros HI H. cbn [wf_api_b negb andb] in H.
   apply andb_true_iff in H. destruct H as [H Hm].
   apply andb_true_iff in H. destruct H as [H Hlim].
-  apply andb_true_iff in H. destruct H as [H Hvf].
-  apply andb_true_iff in H. destruct H as [Hb Hsl].
-  apply negb_true_iff in Hsl. apply negb_true_iff in Hvf. apply negb_true_iff in Hb.
-  unfold bound in Hb. destruct (lookup p (pc s)) eqn:Hlk; [discriminate|].
+  apply andb_true_iff in H. destruct H as [Hsl Hvf].
+  apply negb_true_iff in Hsl. apply negb_true_iff in Hvf.
   destruct (get_conflicting_slot E p s) as [old|] eqn:Hold; [|discriminate].
-  destruct (lookup old (pc s)) as [oc|] eqn:Hoc; [|discriminate].
+  apply andb_true_iff in Hm. destruct Hm as [Hm Hm3].
+  apply andb_true_iff in Hm. destruct Hm as [Hb Hovf]. apply negb_true_iff in Hovf.
+  destruct (lookup (peq E old) (pc s)) as [oc|] eqn:Hoc; [|discriminate]. rename Hm3 into Hm.
   unfold get_conflicting_slot in Hold. apply find_some_in in Hold. destruct Hold as [Hin Hsame].
   assert (Hcold : count N.eqb old (slots s) = 1).
   { pose proof (I_nodup E s HI old). apply (count_In N.eqb N_reflects) in Hin. lia. }
@@ -1644,7 +1638,8 @@ Proof.
     subst x. rewrite N.eqb_refl in Hxo. discriminate. }
   constructor; auto.
   - apply count_notmem. exact Hsl.
-  - apply (I_vf E s HI). lia.
+  - intros Hpe. rewrite Hpe, orb_false_r in Hb. apply negb_true_iff in Hb. unfold bound in Hb.
+    destruct (lookup (peq E p) (pc s)); [discriminate | reflexivity].
   - unfold check_limiters. rewrite Hh. apply is_nil_eq in Hlim. unfold check_limiters in Hlim.
     apply map_eq_nil in Hlim. rewrite filter_sub_nil; [reflexivity | exact Hlim].
   - unfold check_limiters. rewrite Hh. f_equal. apply filter_same.
@@ -1668,10 +1663,10 @@ Lemma In_filter_ne x old l : In x (filter (fun z => negb (N.eqb z old)) l) -> In
 Proof. intros H. apply filter_In in H. destruct H as [H1 H2]. apply negb_true_iff in H2. auto. Qed.
 
 Definition replace_result (s : state) (c p old oc : N) (sb : state) : state :=
-  set_vf (vf s ++ [old])
+  set_vf (vf s ++ [peq E old])
     (set_plan (plan sb ++ [OReplace c p false old oc (negb (is_nil (check_limiters E old s)))])
-       (set_pc ((p, c) :: filter (fun qc : N * N => negb (N.eqb (fst qc) p))
-                            (filter (fun qc : N * N => negb (N.eqb (fst qc) old)) (pc s)))
+       (set_pc ((peq E p, c) :: filter (fun qc : N * N => negb (N.eqb (fst qc) (peq E p)))
+                            (filter (fun qc : N * N => negb (N.eqb (fst qc) (peq E old))) (pc s)))
           (set_slots (filter (fun z => negb (N.eqb z old)) (slots s) ++ [p]) sb))).
 
 Lemma call_replace s c p old oc sb :
@@ -1728,12 +1723,12 @@ Proof.
       destruct (N.eqb p0 p) eqn:Hpp; cbn.
       + apply N.eqb_eq in Hpp. subst p0. rewrite rf_ne0, rf_p_out0. reflexivity.
       + destruct (N.eqb p0 old) eqn:Hpo; cbn; [apply N.eqb_eq in Hpo; subst; lia | lia].
-    - rewrite rf_pc0. destruct (N.eqb p0 old) eqn:Hpo; cbn.
+    - rewrite rf_pc0. destruct (N.eqb p0 (peq E old)) eqn:Hpo; cbn.
       + apply N.eqb_eq in Hpo. subst. symmetry. exact rf_oc0.
-      + rewrite !lookup_filter_ne, Hpo. cbn. destruct (N.eqb p0 p) eqn:Hpp.
-        * apply N.eqb_eq in Hpp. subst. cbn. symmetry. exact rf_p_unbound0.
+      + rewrite !lookup_filter_ne, Hpo. cbn. destruct (N.eqb p0 (peq E p)) eqn:Hpp.
+        * apply N.eqb_eq in Hpp. subst p0. cbn. symmetry. apply rf_p_unbound0. exact Hpo.
         * reflexivity.
-    - rewrite memN_filter_ne, memN_app, rf_vf0. destruct (N.eqb p0 old) eqn:Hpo; cbn.
+    - rewrite memN_filter_ne, memN_app, rf_vf0. destruct (N.eqb p0 (peq E old)) eqn:Hpo; cbn.
       + apply N.eqb_eq in Hpo. subst. rewrite andb_false_r. symmetry. exact rf_old_vf0.
       + rewrite orb_false_r, andb_true_r. reflexivity. }
   destruct Hr as (T1 & Hr & HoT).
@@ -1752,7 +1747,7 @@ Proof.
   intros HI H. assert (f = false) by (destruct f; [discriminate | reflexivity]). subst f.
   destruct (replace_facts s c p HI H) as (old & oc & sb & Hold & F).
   unfold call_s. rewrite (call_replace s c p old oc sb Hold F). cbn [fst]. destruct F.
-  destruct rf_inv0 as [J1 J2 J3 J4 J5 J6]. rewrite rf_slots0 in *. rewrite rf_vf0 in *.
+  destruct rf_inv0 as [J1 J2 J3 J4 J5]. rewrite rf_slots0 in *.
   unfold replace_result. constructor; cbn; intros; auto.
   - rewrite (count_app N.eqb), (count_filter N.eqb N_reflects). cbn.
     destruct (N.eqb p0 p) eqn:Hpp.
@@ -1767,10 +1762,6 @@ Proof.
       rewrite same_slot_sym, rf_others0 in H2; [discriminate | lia | exact Hpo].
     + destruct (N.eqb p0 old), (N.eqb q old); cbn in *; try lia. apply J2; auto; lia.
   - eapply J5; eauto.
-  - rewrite (count_app N.eqb), (count_filter N.eqb N_reflects) in *. cbn in *. rewrite memN_app.
-    destruct (N.eqb p0 p) eqn:Hpp.
-    + apply N.eqb_eq in Hpp. subst p0. rewrite rf_p_vf0, rf_ne0. reflexivity.
-    + destruct (N.eqb p0 old) eqn:Hpo; cbn in *; [lia|]. rewrite orb_false_r. apply J6. lia.
 Qed.
 
 End Compound.
@@ -2028,39 +2019,15 @@ Proof.
   apply (same_count_length pair_eqb pair_reflects). apply rb_of_counts. exact Ho.
 Qed.
 
-Lemma call_remove_state2 s c p : Inv E s -> wf_api_b E s (ARemove c p) = true ->
-  exists sb, decref_all c (rb_of c s) s = (sb, Ok tt) /\ Inv E sb /\
-    plan sb = plan s ++ dops c (rb_of c s) /\ slots sb = slots s /\ pc sb = pc s /\ vf sb = vf s /\ fr sb = fr s /\
-    call_s E (ARemove c p) s
-    = set_vf (vf s ++ [p]) (set_plan (plan sb ++ [ORemove c p])
-        (set_pc (filter (fun qc : N * N => negb (N.eqb (fst qc) p)) (pc s))
-           (set_slots (filter (fun x => negb (N.eqb x p)) (slots s)) sb))).
-Proof.
-  intros HI H. cbn [wf_api_b] in H. apply andb_true_iff in H. destruct H as [Hsl Hpc].
-  unfold opt_eqb in Hpc. destruct (lookup p (pc s)) as [c0|] eqn:Hlk; [|discriminate].
-  apply N.eqb_eq in Hpc. subst c0.
-  assert (Hc1 : count N.eqb p (slots s) = 1).
-  { pose proof (I_nodup E s HI p). pose proof (count_mem _ _ Hsl). lia. }
-  assert (Hvf : memN p (vf s) = false) by (apply (I_vf E s HI); rewrite Hc1; lia).
-  assert (Hl : forall e, count pair_eqb e (rb_of c s) <= count trip_eqb (c, e) (rb s))
-    by (intros e; rewrite count_rb_of; lia).
-  destruct (decref_all_ok E c (rb_of c s) s HI Hl) as (sb & Hall & HIb & Hplb & Hslb & Hpcb & Hvfb & Hfrb & Hundo).
-  exists sb. repeat (split; [assumption|]).
-  unfold call_s. cbn [call]. unfold remove_apply, bind, remove_slotting. rewrite Hsl.
-  unfold remove_pkg_blockers. rewrite rb_of_set_slots, decref_all_slots, Hall. cbn [fst snd].
-  unfold pc_del. cbn [pc set_slots]. rewrite Hpcb, Hlk. cbn.
-  rewrite Hvfb, Hvf. cbn. reflexivity.
-Qed.
-
 Lemma remove_cong s1 s2 c p : Inv E s1 -> equivw s1 s2 ->
   wf_api_b E s1 (ARemove c p) = true -> wf_api_b E s2 (ARemove c p) = true ->
   equivw (call_s E (ARemove c p) s1) (call_s E (ARemove c p) s2).
 Proof.
   intros HI [Ho Hlen] W1 W2. pose proof (Inv_obs E s1 s2 Ho HI) as HI2.
-  destruct (call_remove_state2 s1 c p HI W1) as (sb1 & A1 & I1 & P1 & S1 & C1 & V1 & F1 & ->).
-  destruct (call_remove_state2 s2 c p HI2 W2) as (sb2 & A2 & I2 & P2 & S2 & C2 & V2 & F2 & ->).
+  destruct (call_remove_state2 E s1 c p HI W1) as (sb1 & A1 & I1 & P1 & S1 & C1 & V1 & F1 & ->).
+  destruct (call_remove_state2 E s2 c p HI2 W2) as (sb2 & A2 & I2 & P2 & S2 & C2 & V2 & F2 & ->).
   destruct (decref_all_cong c s1 s2 sb1 sb2 HI Ho A1 A2 I1 I2) as (Hrb & Hbrc & Hlim & Hll).
-  destruct Ho as [Hsl Hli Hpc Hrb0 Hbr Hvf Hfr]. split.
+  destruct Ho as [Hsl Hli Hpc Hrb0 Hbr Hvf Hfr]. unfold remove_result. split.
   - constructor; cbn; intros; auto.
     + rewrite !(count_filter N.eqb N_reflects), Hsl. reflexivity.
     + rewrite !lookup_filter_ne, Hpc. reflexivity.
@@ -2098,7 +2065,7 @@ Proof.
   destruct Ho as [Hsl Hli Hpc Hrb0 Hbr Hvf Hfr]. unfold replace_result. split.
   - constructor; cbn; intros; auto.
     + rewrite !(count_app N.eqb), !(count_filter N.eqb N_reflects), Hsl. reflexivity.
-    + destruct (N.eqb p0 p); [reflexivity|]. rewrite !lookup_filter_ne, Hpc. reflexivity.
+    + destruct (N.eqb p0 (peq E p)); [reflexivity|]. rewrite !lookup_filter_ne, Hpc. reflexivity.
     + rewrite !memN_app, Hvf. reflexivity.
     + rewrite Fr1, Fr2. apply Hfr.
   - cbn. rewrite !app_length, P1, P2, !app_length. unfold dops. rewrite !map_length, Hll, Hlen. reflexivity.
@@ -2133,13 +2100,15 @@ Proof.
   intros HI Ho. destruct a; cbn [wf_api_b]; auto.
   - unfold bound. rewrite (oe_pc _ _ Ho), (memN_obs (slots s1) (slots s2) p (oe_slots _ _ Ho)),
       (oe_vf _ _ Ho), (slot_conflicts_nil E s1 s2 p Ho). auto.
-  - rewrite (oe_pc _ _ Ho), (memN_obs (slots s1) (slots s2) p (oe_slots _ _ Ho)). auto.
-  - unfold bound. rewrite (oe_pc _ _ Ho p), (memN_obs (slots s1) (slots s2) p (oe_slots _ _ Ho)),
-      (oe_vf _ _ Ho), (check_limiters_nil E s1 s2 p Ho).
+  - rewrite (oe_pc _ _ Ho), (memN_obs (slots s1) (slots s2) p (oe_slots _ _ Ho)), (oe_vf _ _ Ho). auto.
+  - unfold bound. rewrite (memN_obs (slots s1) (slots s2) p (oe_slots _ _ Ho)),
+      (oe_vf _ _ Ho (peq E p)), (check_limiters_nil E s1 s2 p Ho).
     intros H. apply andb_true_iff in H. destruct H as [H Hm]. rewrite H. cbn [andb].
     destruct (get_conflicting_slot E p s1) as [old|] eqn:Hold; [|discriminate].
-    rewrite (conflicting_slot_obs s1 s2 p old HI Ho Hold). rewrite <- (oe_pc _ _ Ho old).
-    destruct (lookup old (pc s1)) as [oc|]; [|discriminate].
+    rewrite (conflicting_slot_obs s1 s2 p old HI Ho Hold).
+    rewrite <- (oe_pc _ _ Ho (peq E p)), <- (oe_pc _ _ Ho (peq E old)), <- (oe_vf _ _ Ho (peq E old)).
+    apply andb_true_iff in Hm. destruct Hm as [Hm1 Hm]. rewrite Hm1. cbn [andb].
+    destruct (lookup (peq E old) (pc s1)) as [oc|]; [|discriminate].
     apply forallb_forall. intros x Hx. rewrite forallb_forall in Hm. apply Hm.
     apply (count_In pair_eqb pair_reflects). rewrite (rb_of_counts s1 s2 oc Ho).
     apply (count_In pair_eqb pair_reflects). exact Hx.
@@ -2318,7 +2287,8 @@ Qed.
 
 (* ------------------------------------------------------------------ examples and refutations *)
 Definition E0 : env := env_of {| ckeys := [0;0;0;1]%N; cslots := [0;0;1;0]%N; cbkeys := [0;1]%N;
-                                 cmatch := [[false;true;false;false];[false;false;false;true]] |}.
+                                 cmatch := [[false;true;false;false];[false;false;false;true]];
+                                 ceqs := [0;1;2;3]%N |}.
 (* the hypotheses are satisfiable by a history with conflicts, blockers shared by two choice
    points, and nested rollbacks *)
 Definition h_ex : list event :=
@@ -2333,6 +2303,18 @@ Definition h_ex2 : list event :=
 Example wf_ex2 : WF E0 h_ex2.
 Proof. vm_compute. reflexivity. Qed.
 
+(* re-merge of the installed version: p0 (vdb) and p1 (repo) are two objects that compare equal,
+   so they share one pkg_choices / vdb_filter key; the history is well-formed and rolling back over
+   the replace restores p0's binding *)
+Definition E3 : env := env_of {| ckeys := [0;0;0;1]%N; cslots := [0;0;1;0]%N; cbkeys := [0;1]%N;
+                                 cmatch := [[false;false;false;false];[false;false;false;false]];
+                                 ceqs := [0;0;2;3]%N |}.
+Definition h_equal : list event :=
+  [C (AAdd 0 0 true); C (ABlock 0 1 1); C (AReplace 1 1 false); R 2; C (AReplace 2 1 false); R 1; R 0]%N.
+Example wf_equal : WF E3 h_equal /\
+  lookup 0%N (pc (run E3 [C (AAdd 0 0 true); C (ABlock 0 1 1); C (AReplace 1 1 false); R 2]%N init)) = Some 0%N.
+Proof. split; vm_compute; reflexivity. Qed.
+
 (* without WF the statement is false of the faithful model (and of the code: known findings) *)
 Definition h_forced_dup : list event := [C (AAdd 2 3 true); C (AAdd 0 3 true); R 1]%N.
 Lemma forced_add_of_bound_package_refuted :
@@ -2340,14 +2322,16 @@ Lemma forced_add_of_bound_package_refuted :
   lookup 3%N (pc (replay E0 (surviving E0 h_forced_dup) init)) = Some 2%N.
 Proof. split; vm_compute; reflexivity. Qed.
 Definition E1 : env := env_of {| ckeys := [0;0;0;1]%N; cslots := [0;0;1;0]%N; cbkeys := [0;1]%N;
-                                 cmatch := [[true;false;false;false];[false;false;false;false]] |}.
+                                 cmatch := [[true;false;false;false];[false;false;false;false]];
+                                 ceqs := [0;1;2;3]%N |}.
 Definition h_selfblocked : list event :=
   [C (AAdd 0 0 false); C (ABlock 0 0 0); C (AReplace 1 1 false)]%N.
 Lemma replace_old_blocked_by_own_blocker_refuted :
   snd (backtrack E1 2 (run E1 h_selfblocked init)) = Ex AssertionError.
 Proof. vm_compute. reflexivity. Qed.
 Definition E2 : env := env_of {| ckeys := [0;0;0;1]%N; cslots := [0;0;1;0]%N; cbkeys := [0;1]%N;
-                                 cmatch := [[true;true;false;false];[false;false;false;false]] |}.
+                                 cmatch := [[true;true;false;false];[false;false;false;false]];
+                                 ceqs := [0;1;2;3]%N |}.
 Lemma replace_failure_path_refuted :
   let s := run E2 [C (AAdd 0 0 true); C (ABlock 1 0 0)]%N init in
   snd (call E2 (AReplace 1 1 false) s) = Ex AssertionError /\
